@@ -220,3 +220,73 @@ theorem exists_slim_index (m : Mask) (j : Nat) (hj : j < m.h * m.w)
   exact ⟨k, hk, by rw [hkeq, flat_div_mod]⟩
 
 end Model
+
+namespace Model
+
+/-! ### 1-D twins -/
+
+theorem nativeForSlim1d_eq (mask : List Bool) :
+    Impl.nativeForSlim1d mask = (List.range mask.length).filter fun x => !mask.getD x true := by
+  unfold Impl.nativeForSlim1d
+  have := foldl_append_if (List.range mask.length) (fun x => !mask.getD x true) (fun x => x) []
+  simpa using this
+
+theorem slim1dFrom_eq (mask : List Bool) (a : List α) (zero : α) :
+    Impl.slim1dFrom mask a zero = (Impl.nativeForSlim1d mask).map fun x => a.getD x zero := by
+  rw [nativeForSlim1d_eq]
+  unfold Impl.slim1dFrom
+  have := foldl_append_if (List.range mask.length) (fun x => !mask.getD x true)
+    (fun x => a.getD x zero) []
+  simpa using this
+
+theorem nativeForSlim1d_pairwise (mask : List Bool) :
+    (Impl.nativeForSlim1d mask).Pairwise (· < ·) := by
+  rw [nativeForSlim1d_eq]; exact List.Pairwise.filter _ List.pairwise_lt_range
+
+theorem mem_nativeForSlim1d {mask : List Bool} {x : Nat} :
+    x ∈ Impl.nativeForSlim1d mask ↔ x < mask.length ∧ mask.getD x true = false := by
+  rw [nativeForSlim1d_eq]; simp
+
+theorem native1dFrom_eq (mask : List Bool) (s : List α) (zero : α) :
+    Impl.native1dFrom mask s zero
+      = scatterLoop (fun k => (Impl.nativeForSlim1d mask).getD k 0) (fun k => s.getD k zero)
+          (List.replicate mask.length zero) (Impl.nativeForSlim1d mask).length := rfl
+
+theorem native1dFrom_length (mask : List Bool) (s : List α) (zero : α) :
+    (Impl.native1dFrom mask s zero).length = mask.length := by
+  simp [native1dFrom_eq]
+
+theorem native1dFrom_hit (mask : List Bool) (s : List α) (zero : α) (k : Nat)
+    (hk : k < (Impl.nativeForSlim1d mask).length) :
+    (Impl.native1dFrom mask s zero)[(Impl.nativeForSlim1d mask)[k]]? = some (s.getD k zero) := by
+  rw [native1dFrom_eq]
+  have hpw := nativeForSlim1d_pairwise mask
+  rw [List.pairwise_iff_getElem] at hpw
+  have := scatterLoop_hit (fun k => (Impl.nativeForSlim1d mask).getD k 0)
+    (fun k => s.getD k zero) (List.replicate mask.length zero) (Impl.nativeForSlim1d mask).length k hk
+    (by
+      intro k' hk' h
+      simp only [List.getD_eq_getElem?_getD, List.getElem?_eq_getElem hk', List.getElem?_eq_getElem hk,
+        Option.getD_some] at h
+      rcases Nat.lt_trichotomy k' k with hlt | heq | hgt
+      · have := hpw k' k hk' hk hlt; omega
+      · exact heq
+      · have := hpw k k' hk hk' hgt; omega)
+    (by
+      simp only [List.getD_eq_getElem?_getD, List.getElem?_eq_getElem hk, Option.getD_some,
+        List.length_replicate]
+      exact (mem_nativeForSlim1d.mp (List.getElem_mem hk)).1)
+  simpa [List.getD_eq_getElem?_getD, List.getElem?_eq_getElem hk] using this
+
+theorem native1dFrom_masked (mask : List Bool) (s : List α) (zero : α) (j : Nat)
+    (hj : j < mask.length) (hm : mask.getD j true = true) :
+    (Impl.native1dFrom mask s zero)[j]? = some zero := by
+  rw [native1dFrom_eq, scatterLoop_miss]
+  · simp [hj]
+  · intro k hk h
+    simp only [List.getD_eq_getElem?_getD, List.getElem?_eq_getElem hk, Option.getD_some] at h
+    have := (mem_nativeForSlim1d.mp (List.getElem_mem hk)).2
+    rw [h, hm] at this
+    exact Bool.noConfusion this
+
+end Model
